@@ -60,12 +60,14 @@ FASTPATH = dict(
     assumptions=[
         "bpf/dhcp_fastpath.c is compiled as user-space C from /repo's current tree with shim helper headers (cshim/); kernel verifier, JIT and real XDP driver are not involved; bpf_xdp_adjust_tail is emulated with 1 KiB of tailroom",
         "the cache is real kernel eBPF maps (sizes from the C declarations) written by the real dhcp.Server/PoolManager through the real ebpf.Loader (maps injected by reflection; Loader.SetServerConfig called as Server.Start would); the harness mirrors raw map bytes into the native program",
-        "well-formedness and field extraction of a transmitted frame (checksum, lengths, ports, xid, chaddr, options via the dhcpv4 library) is the trusted byte-level step; 'same as userspace' compares the option fields with those of the last ACK the real userspace server sent to that client",
+        "well-formedness and field extraction of a transmitted frame (checksum, lengths, ports, xid, chaddr, options via the dhcpv4 library) is the trusted byte-level step; 'same as userspace' compares the option fields with those of the last ACK the real userspace server sent to that client and, for DISCOVER frames, also with those of the last OFFER the userspace server sent that client since that ACK (if it sent one)",
+        "two pools behind the pool manager (pool 1 = the system's network, 1 h leases, two DNS servers; pool 2 = 172.16.8.0/28, its own gateway, one DNS server, 45 min leases: like pool 1's, a pool-2 lease is unexpired after one tick and expired after two); events SETDEF2/SETDEF1 are the operator making pool 2 / pool 1 the default pool (no-ops for the contract's ghost); clients that arrive while pool 2 is the default are bound in pool 2, whose addresses are projected to units 100.. (Dhcp4FpImpl does not evaluate InPoolUsable; only identity of units matters to it)",
         "frame battery: 13 frame classes per client (300-byte BOOTP, larger option areas, pad-before-53 layout, 802.1Q, QinQ, IHL 6, relayed with option 82, broadcast flag + ciaddr, short, RELEASE, INFORM, REQUEST for a foreign address) x 2 kernel-clock values, in every explored server state",
         "expiry is judged from the userspace cleanup tick (the kernel-side expiry comparison uses a different clock and is not relied upon)",
     ],
     explanation="The Dhcp4 contract's ghost (what userspace ACKed to whom) is advanced over the table of the real userspace server; at every node the natively compiled XDP program's answers "
-                "to a frame battery on the mirrored kernel maps are judged by Dhcp4FpImpl.tla.",
+                "to a frame battery on the mirrored kernel maps are judged by Dhcp4FpImpl.tla. Besides tables and random chains (both include default-pool changes) one directed history per variant "
+                "switches the default pool back and forth while clients are bound in either pool.",
 )
 CHECKS = {"C02": dict(DHCP4, runner=runner), "C03": FASTPATH}
 MANIFEST = {"C03": dict(
